@@ -586,6 +586,12 @@ def pair_component(fn_node, expr, producers) -> Optional[int]:
     k = direct(expr)
     if k is not None:
         return k
+    # `pair = producer(...)` ... `pair[k]`
+    if isinstance(expr, ast.Subscript) and isinstance(expr.slice, ast.Constant) and expr.slice.value in (0, 1, -1, -2) and isinstance(expr.value, ast.Name):
+        defs = [x.value for x in walk_local(fn_node) if isinstance(x, ast.Assign) and len(x.targets) == 1
+                and isinstance(x.targets[0], ast.Name) and x.targets[0].id == expr.value.id]
+        if len(defs) == 1 and isinstance(defs[0], ast.Call) and call_name(defs[0]) in producers:
+            return expr.slice.value % 2
     if isinstance(expr, ast.Name):
         found = set()
         for x in walk_local(fn_node):
@@ -663,17 +669,31 @@ def with_private_helpers(idx: Index, f: FuncInfo, depth: int = 2) -> List[FuncIn
     return out
 
 
+_INLINE_CACHE: Dict[tuple, ast.AST] = {}
+
+
+def inlined(idx: Index, f: FuncInfo) -> ast.AST:
+    """cached inline_private_calls(idx, f) (default options)"""
+    key = (id(idx), f.qualname)
+    if key not in _INLINE_CACHE:
+        _INLINE_CACHE[key] = inline_private_calls(idx, f)
+    return _INLINE_CACHE[key]
+
+
 def inline_private_calls(idx: Index, f: FuncInfo, depth: int = 2, keep=()) -> ast.AST:
     """A copy of f's FunctionDef in which every STATEMENT of the form `self._helper(args)` / `_helper(args)` (an expression
     statement; the helper is a private method of the same class or private function of the same module, takes plain
     positional/keyword parameters, and contains no `return <value>` / `yield`) is replaced by the helper's body with the
-    parameters substituted by the argument expressions (helpers named in `keep` stay calls).  Path rules build their CFG on this copy, so that moving the
+    parameters substituted by the argument expressions (helpers named in `keep` stay calls); likewise `x = helper(args)` /
+    `return helper(args)` when the helper's only return is its last statement.  Path rules build their CFG on this copy, so that moving the
     tail of a function into a helper does not change what they see.  Anything else is left as it is."""
     import copy
 
     def helper_of(g_cls, modname, call):
         if is_self_attr(call.func) and g_cls is not None:
-            return idx.find_method(g_cls.qualname, call.func.attr), True
+            h = idx.find_method(g_cls.qualname, call.func.attr)
+            static = h is not None and any(d.split(".")[-1] == "staticmethod" for d in h.decorator_names())
+            return h, not static
         if isinstance(call.func, ast.Name):
             q = idx.resolve(modname, call.func)
             h = idx.functions.get(q) if q else None
@@ -724,6 +744,118 @@ def inline_private_calls(idx: Index, f: FuncInfo, depth: int = 2, keep=()) -> as
                             body = [Sub().visit(copy.deepcopy(b)) for b in h.node.body
                                     if not (isinstance(b, ast.Expr) and isinstance(b.value, ast.Constant)) and not isinstance(b, ast.Return)]
                             out.extend(expand(body, level + 1) or [ast.Pass()])
+                            continue
+            # `x = self._h(args)` / `return self._h(args)` where every return of the helper is in tail position of an
+            # if/else tree (no return inside a loop / try / with): `return E` becomes `x = E`, the statements after an
+            # `if ...: return` move into its else branch
+            if level < depth and isinstance(st, (ast.Assign, ast.Return)) and isinstance(getattr(st, "value", None), ast.Call):
+                h, is_method = helper_of(f.cls, f.unit.modname, st.value)
+                if h is not None and h.qualname != f.qualname and h.name.startswith("_") and not h.name.startswith("__") and h.name not in keep:
+                    a = h.node.args
+                    rets = [x for x in walk_local(h.node) if isinstance(x, ast.Return)]
+                    gen = any(isinstance(x, (ast.Yield, ast.YieldFrom)) for x in walk_local(h.node))
+                    if len(rets) > 1 and not gen and not (a.vararg or a.kwarg or a.posonlyargs):
+                        params = [p.arg for p in a.args][1 if is_method else 0:]
+                        env = dict(zip(params, st.value.args))
+                        ok = len(st.value.args) <= len(params)
+                        for k in st.value.keywords:
+                            if k.arg in params:
+                                env[k.arg] = k.value
+                            else:
+                                ok = False
+                        defaults = dict(zip(params[len(params) - len(a.defaults):], a.defaults))
+                        for pnm in params:
+                            if pnm not in env:
+                                if pnm in defaults:
+                                    env[pnm] = defaults[pnm]
+                                else:
+                                    ok = False
+
+                        def make(value):
+                            st3 = copy.copy(st)
+                            st3.value = value if value is not None else ast.Constant(value=None)
+                            return st3
+
+                        def tailify(stmts):
+                            """-> statements with every tail return replaced by make(E), or None when some return is not in tail position"""
+                            out2 = []
+                            for i, b in enumerate(stmts):
+                                rest = stmts[i + 1:]
+                                if isinstance(b, ast.Return):
+                                    out2.append(make(b.value))
+                                    return out2
+                                has_ret = any(isinstance(x, ast.Return) for x in ast.walk(b))
+                                if not has_ret:
+                                    out2.append(b)
+                                    continue
+                                if not isinstance(b, ast.If):
+                                    return None
+                                body = tailify(b.body + ([] if _ends(b.body) else rest)) if True else None
+                                orelse = tailify((b.orelse or []) + ([] if (b.orelse and _ends(b.orelse)) else rest))
+                                if body is None or orelse is None:
+                                    return None
+                                nb = copy.copy(b)
+                                nb.body, nb.orelse = body, orelse
+                                out2.append(nb)
+                                return out2
+                            out2.append(make(None))
+                            return out2
+
+                        def _ends(block):
+                            return bool(block) and isinstance(block[-1], (ast.Return, ast.Raise))
+
+                        if ok:
+                            class Sub3(ast.NodeTransformer):
+                                def visit_Name(self, n):
+                                    if n.id in env and isinstance(n.ctx, ast.Load):
+                                        return copy.deepcopy(env[n.id])
+                                    return n
+                            hb = [Sub3().visit(copy.deepcopy(b)) for b in h.node.body
+                                  if not (isinstance(b, ast.Expr) and isinstance(b.value, ast.Constant))]
+                            t = tailify(hb)
+                            if t is not None:
+                                out.extend(expand(t, level + 1))
+                                continue
+            # `x = self._h(args)` / `return self._h(args)` where the helper's only return is its last statement
+            if level < depth and isinstance(st, (ast.Assign, ast.Return, ast.AnnAssign)) and isinstance(getattr(st, "value", None), ast.Call):
+                h, is_method = helper_of(f.cls, f.unit.modname, st.value)
+                if h is not None and h.qualname != f.qualname and h.name.startswith("_") and not h.name.startswith("__") and h.name not in keep \
+                        and h.node.body and isinstance(h.node.body[-1], ast.Return) and h.node.body[-1].value is not None:
+                    a = h.node.args
+                    rets = [x for x in walk_local(h.node) if isinstance(x, ast.Return)]
+                    gen = any(isinstance(x, (ast.Yield, ast.YieldFrom)) for x in walk_local(h.node))
+                    if len(rets) == 1 and not gen and not (a.vararg or a.kwarg or a.posonlyargs):
+                        params = [p.arg for p in a.args][1 if is_method else 0:]
+                        env = dict(zip(params, st.value.args))
+                        ok = len(st.value.args) <= len(params)
+                        for k in st.value.keywords:
+                            if k.arg in params:
+                                env[k.arg] = k.value
+                            else:
+                                ok = False
+                        defaults = dict(zip(params[len(params) - len(a.defaults):], a.defaults))
+                        for pnm in params:
+                            if pnm not in env:
+                                if pnm in defaults:
+                                    env[pnm] = defaults[pnm]
+                                else:
+                                    ok = False
+                        if ok:
+                            class Sub2(ast.NodeTransformer):
+                                def visit_Name(self, n):
+                                    if n.id in env and isinstance(n.ctx, ast.Load):
+                                        return copy.deepcopy(env[n.id])
+                                    return n
+                            hb = [Sub2().visit(copy.deepcopy(b)) for b in h.node.body
+                                  if not (isinstance(b, ast.Expr) and isinstance(b.value, ast.Constant))]
+                            final = hb.pop()
+                            st2 = copy.copy(st)
+                            st2.value = final.value
+                            out.extend(expand(hb, level + 1))
+                            trivial = isinstance(st2, ast.Assign) and len(st2.targets) == 1 and isinstance(st2.targets[0], ast.Name) \
+                                and isinstance(st2.value, ast.Name) and st2.value.id == st2.targets[0].id
+                            if not trivial:  # `x = x` (the helper's local has the caller's name) carries no information
+                                out.append(st2)
                             continue
             out.append(st)
         return out
